@@ -1,6 +1,6 @@
 import GSProofs.Lemmas.LinkTrackSpec
 /-!
-Refinement: on well-formed histories the model of `peerLinkTracker` and the naive specification
+Refinement: on every history the model of `peerLinkTracker` and the naive specification
 produce the same outputs, and the relation `R` between their states is an invariant.
 -/
 set_option linter.unusedSimpArgs false
@@ -93,71 +93,31 @@ end proj
 
 /-! ### one lemma per operation -/
 
-theorem R_dedup {p : PeerTracker} {σ : Spec} (h : R p σ) (r : Req) (k : Key) (hc : σ.clean r) :
-    R (p.dedupKey r k) (σ.step (.dedup r k)).1 := by
-  obtain ⟨hc1, hc2, hc3⟩ := hc
-  have hst : ∀ s, (p.dedupKey r k).scopeTracker s = p.scopeTracker s := by
-    intro s
-    cases s with
-    | none => rfl
-    | some k' =>
-      simp only [dedupKey, scopeTracker]
-      cases hk : aget p.alts k with
-      | some T => simp
-      | none =>
-        simp only [Option.isSome_none, Bool.false_eq_true, if_false, aget_aset]
-        by_cases hkk : k = k'
-        · subst hkk; simp [hk]
-        · simp [hkk]
-  have hal : ∀ k', (aget (p.dedupKey r k).alts k').isSome = (decide (k = k') || (aget p.alts k').isSome) := by
-    intro k'
-    simp only [dedupKey]
+theorem dedupKey_scopeTracker (p : PeerTracker) (r : Req) (k : Key) (s : Option Key) :
+    (p.dedupKey r k).scopeTracker s = p.scopeTracker s := by
+  cases s with
+  | none => rfl
+  | some k' =>
+    simp only [dedupKey, scopeTracker]
     cases hk : aget p.alts k with
-    | some T =>
+    | some T => simp
+    | none =>
+      simp only [Option.isSome_none, Bool.false_eq_true, if_false, aget_aset]
       by_cases hkk : k = k'
       · subst hkk; simp [hk]
       · simp [hkk]
-    | none =>
-      simp only [Option.isSome_none, Bool.false_eq_true, if_false, aget_aset]
-      by_cases hkk : k = k' <;> simp [hkk]
-  refine ⟨?_, nodupKeys_aset h.nd r k, h.sc, h.sk, ?_, ?_, ?_, ?_⟩
-  · intro r'
-    simp only [dedupKey, aget_aset, Spec.step, upd]
-    by_cases hr : r = r'
-    · subst hr; simp
-    · have : ¬ r' = r := fun h2 => hr h2.symm
-      simp [hr, this, h.dk r']
-  · intro s; rw [hst s]; exact h.tr s
-  · intro k'
-    rw [hal k']
-    simp only [Spec.step, Bool.or_eq_true, decide_eq_true_eq]
-    constructor
-    · rintro (h1 | h1)
-      · exact ⟨r, by simp [h1]⟩
-      · obtain ⟨r', hr'⟩ := (h.al k').1 h1
-        refine ⟨r', ?_⟩
-        rw [upd_other]; exact hr'
-        intro h2; rw [h2, hc1] at hr'; simp at hr'
-    · rintro ⟨r', hr'⟩
-      by_cases h2 : r' = r
-      · subst h2; simp at hr'; exact Or.inl hr'
-      · rw [upd_other _ _ h2] at hr'
-        exact Or.inr ((h.al k').2 ⟨r', hr'⟩)
-  · intro e he
-    simp only [Spec.step] at he ⊢
-    rw [upd_other _ _ (hc2 e he)]; exact h.jw e he
-  · intro e he
-    simp only [Spec.step] at he ⊢
-    rw [upd_other _ _ (hc3 e he)]; exact h.jm e he
 
-theorem sim_foldl_record {T : LinkTracker} {wb ms : Ledger} (h : Sim T wb ms) (r : Req) (ls : List Link) :
-    Sim (ls.foldl (fun t l => t.record r l true) T) (wb ++ ls.map (fun l => (r, l))) ms := by
-  induction ls generalizing T wb with
-  | nil => simpa using h
-  | cons a t ih =>
-    rw [List.foldl_cons, List.map_cons]
-    have := ih (sim_record_true h r a)
-    simpa [List.append_assoc] using this
+theorem dedupKey_alts_isSome (p : PeerTracker) (r : Req) (k k' : Key) :
+    (aget (p.dedupKey r k).alts k').isSome = (decide (k = k') || (aget p.alts k').isSome) := by
+  simp only [dedupKey]
+  cases hk : aget p.alts k with
+  | some T =>
+    by_cases hkk : k = k'
+    · subst hkk; simp [hk]
+    · simp [hkk]
+  | none =>
+    simp only [Option.isSome_none, Bool.false_eq_true, if_false, aget_aset]
+    by_cases hkk : k = k' <;> simp [hkk]
 
 theorem R_ignore {p : PeerTracker} {σ : Spec} (h : R p σ) (r : Req) (ls : List Link) :
     R (p.ignoreBlocks r ls) (σ.step (.ignore r ls)).1 := by
@@ -172,7 +132,7 @@ theorem R_ignore {p : PeerTracker} {σ : Spec} (h : R p σ) (r : Req) (ls : List
     rw [scopeTracker_set]
     simp only [ignore_wb, ignore_ms, proj_append, proj_map]
     by_cases hs : σ.scope r = s
-    · subst hs; simp only [if_true]; exact sim_foldl_record (h.tr _) r ls
+    · subst hs; simp only [if_true]; exact sim_foldl_record_true (h.tr _) r ls
     · simp only [hs, if_false, List.append_nil]; exact h.tr s
   · intro k
     rw [h.alts_set_isSome]; exact h.al k
